@@ -74,6 +74,7 @@ type Engine struct {
 
 	undecided []string // keyed functions/loops that no longer exist
 	missing   []missingItem // functions / loops named by a contract that the code no longer has
+	knownObl map[string]bool // obligations listed as known findings of the property being checked
 	localClause string // label of the clause over locals being type-checked
 	precallSites []token.Pos // positions of the calls the precall clause being checked guards
 	broken    []string // engine-level problems (spec does not type-check, ...)
